@@ -92,9 +92,11 @@ class DepOrderSpec:
                 bad.append('C09: the identifier `%s` is resolved in the scope of another function' % nm)
         if nself != 1:
             bad.append('C09: the declared function has %d self edges (one expected, so that it forms a group of its own)' % nself)
+            if nself == 0:
+                bad.append('C10: a declared function gets no node in the dependency order: it is never inferred as part of a group and infer_function_query panics ("This is a compiler error!") on the first query inside it')
         rec = {'cls': 'edges:%d' % ndep, 'ok': True, 'sample': {'identifiers': self.nvars, 'dependency_edges': ndep}}
         if bad:
-            rec.update({'cls': 'violation', 'ok': False, 'why': sorted(set(bad))[:3], 'cex': {'identifiers': self.nvars}})
+            rec.update({'cls': 'violation', 'ok': False, 'why': sorted(set(bad))[:4], 'cex': {'identifiers': self.nvars}})
         return rec
 
     def on_panic(self, it, e):
